@@ -26,11 +26,11 @@ ASSUMPTIONS = ["write->read cycle: NULL is a number, every curve is numeric, the
 NULLS = [
     # (header spellings, value or None)
     (["-999.25", "-999.2500", "-9.9925E2", "-9.9925e+02", "-0999.25"], -999.25),
-    (["999.25", "+999.25", "9.9925E2"], 999.25),
-    (["-999", "-999.0", "-9.99E2"], -999.0),
+    (["999.25", "+999.25", "9.9925E2", "999,25", "+.99925e3"], 999.25),
+    (["-999", "-999.0", "-9.99E2", "-999.", "-999.E0", "-.999E3", "-999,0"], -999.0),
     (["0", "0.0", "-0.0", "0E0"], 0.0),
     (["1e30", "1E+30", "1.0e30"], 1e30),
-    (["-99999", "-99999.000"], -99999.0),
+    (["-99999", "-99999.000", "-99999.", "-099999"], -99999.0),
     (["N/A", "abc", "none", "- 999.25"], None),
     ([None], None),
 ]
